@@ -186,7 +186,7 @@ def run_case(case):
 def main(tier, seed):
     V = core.Verdict(PROPERTY, tier, seed)
     r = core.rng(PROPERTY, seed)
-    nb = 160 if tier == 'quick' else 4000
+    nb = 320 if tier == 'quick' else 4000
     cases = [dict(seed=r.getrandbits(40), n=10, K=dict(whfast=500, leapfrog=500, saba=500, eos=3000, sei=3e4), kinds=['janus', 'janus', 'janus', 'leapfrog', 'whfast', 'saba', 'eos', 'sei']) for _ in range(nb)]
     res = core.run_cases('checks.c10_reverse', 'rel', cases, timeout_case=600)
     for c, rr in zip(cases, res):
